@@ -1,5 +1,5 @@
 """E6 — check harness: obligations, floors, known findings, evidence, exit codes."""
-import json
+import json, re
 import os
 import sys
 import time
@@ -73,9 +73,21 @@ def finish(res, level, technique_note, explanation):
     viol = [o for o in res.obl if o["status"] == "violation"]
     real = []
     seen_known = set()
-    for o in viol:
+    def match_known(o):
+        """exact key, or — for findings that are panic sites — the site itself: function, panic kind and the failing
+        index/length or operand ranges (so that rewriting the surrounding expression does not hide or duplicate the finding)"""
         if o["key"] in known_keys:
-            seen_known.add(o["key"])
+            return o["key"]
+        d = o.get("data") or {}
+        for k in known:
+            m = k.get("match")
+            if m and o["rule"] == m.get("rule") and d.get("fn") == m.get("fn") and d.get("kind") == m.get("kind") and re.search(m.get("detail_re", "$^"), d.get("detail") or ""):
+                return k["key"]
+        return None
+    for o in viol:
+        mk = match_known(o)
+        if mk is not None:
+            seen_known.add(mk)
         else:
             real.append(o)
     # floors
